@@ -4,6 +4,7 @@ import (
 	"errors"
 	"fmt"
 	"runtime"
+	"strings"
 	"sync"
 	"sync/atomic"
 	"testing"
@@ -142,7 +143,12 @@ func (h *addHook) fire(idx uint32) {
 }
 
 // fblk is the element of the fake ledger.
-type fblk struct{ idx uint32 }
+type fblk struct {
+	idx uint32
+	bad bool // an invalid copy of block idx (what a faulty peer sends): the ledger refuses it
+}
+
+var invalidCopiesPut, invalidCopiesRefused atomic.Int64
 
 func (b *fblk) GetIndex() uint32 { return b.idx }
 
@@ -194,6 +200,11 @@ func (c *fakeChain) add(b *fblk, direct bool) error {
 	if b.idx != h+1 {
 		c.log.add(addRec{Idx: b.idx, Height: h, Direct: direct})
 		return errors.New("not the next block")
+	}
+	if b.bad {
+		c.log.add(addRec{Idx: b.idx, Height: h, Direct: direct})
+		invalidCopiesRefused.Add(1)
+		return errors.New("invalid block")
 	}
 	c.log.add(addRec{Idx: b.idx, Height: h, Direct: direct, OK: true})
 	c.delay()
@@ -318,7 +329,7 @@ func driveQueue[Q bqueue.Queueable](qc queueCase, led ledger[Q], log *addLog, mk
 				panickedHook.CompareAndSwap(nil, fmt.Sprintf("Put from inside AddItem: %v", x))
 			}
 		}()
-		_ = q.Put(mk(i, true))
+		_ = q.Put(mk(i, false)) // always a genuine copy: the quiet phase counts on this very put
 		hookPuts.Add(1)
 	})
 	defer led.setHook(nil)
@@ -533,14 +544,84 @@ func runFakeQueue(qc queueCase) queueResult {
 	c := &fakeChain{log: log, dr: rng.New(qc.Stream*64 + 60), level: qc.Delay}
 	blocks := make([]*fblk, qc.N+1)
 	for i := range blocks {
-		blocks[i] = &fblk{uint32(i)}
+		blocks[i] = &fblk{idx: uint32(i)}
 	}
 	return driveQueue[*fblk](qc, c, log, func(i uint32, fresh bool) *fblk {
 		if fresh {
-			return &fblk{i} // another peer's copy of the same block
+			return &fblk{idx: i} // another peer's copy of the same block
 		}
 		return blocks[i]
 	})
+}
+
+// invalidCopyRun: a faulty peer's invalid copy of the next block reaches the
+// queue before the genuine one. The ledger refuses it when its turn comes; the
+// queue must then let go of it, so that the genuine copy (offered again, as the
+// network layer does after a failure) and the blocks behind it get through.
+// Returns "" or what went wrong; stalled tells that the height stopped moving
+// (decided by the caller's three-attempt rule).
+func invalidCopyRun(stream uint64, cache, n int, blocking bool) (problem string, stalled bool) {
+	log := &addLog{}
+	c := &fakeChain{log: log, dr: rng.New(stream*64 + 61), level: int(stream % 3)}
+	mode := bqueue.NonBlocking
+	if blocking {
+		mode = bqueue.Blocking
+	}
+	q := bqueue.New[*fblk](c, zap.NewNop(), nil, cache, nil, mode)
+	done := make(chan any, 1)
+	go func() {
+		defer func() { done <- recover() }()
+		q.Run()
+	}()
+	defer q.Discard()
+	r := rng.New(stream*64 + 63)
+	next := uint32(1)
+	for next <= uint32(n) {
+		// a window of blocks, the first of them preceded by an invalid copy
+		w := uint32(1 + r.Intn(min(cache, 6)))
+		if next+w-1 > uint32(n) {
+			w = uint32(n) - next + 1
+		}
+		before := invalidCopiesRefused.Load()
+		invalidCopiesPut.Add(1)
+		_ = q.Put(&fblk{idx: next, bad: true})
+		// blocks behind it may already be there
+		for i := next + w - 1; i > next; i-- {
+			if r.Intn(2) == 0 {
+				_ = q.Put(&fblk{idx: i})
+			}
+		}
+		deadline := time.Now().Add(8 * time.Second)
+		for invalidCopiesRefused.Load() == before {
+			if time.Now().After(deadline) {
+				return fmt.Sprintf("the invalid copy of block %d was never offered to the ledger", next), true
+			}
+			time.Sleep(200 * time.Microsecond)
+		}
+		// the genuine blocks are (re)sent until the window is through
+		for c.h.Load() < next+w-1 {
+			for i := next; i < next+w; i++ {
+				_ = q.Put(&fblk{idx: i})
+			}
+			if time.Now().After(deadline) {
+				return fmt.Sprintf("block %d refused as invalid, genuine copies of %d..%d offered repeatedly afterwards, the height stays at %d (cache %d)", next, next, next+w-1, c.h.Load(), cache), true
+			}
+			time.Sleep(300 * time.Microsecond)
+		}
+		next += w
+	}
+	recs := log.snapshot()
+	if sig, detail, _, _ := checkLog(recs, cache); sig != "" {
+		return sig + ": " + detail, false
+	}
+	select {
+	case x := <-done:
+		if x != nil {
+			return fmt.Sprintf("queue.Run panicked: %v", x), false
+		}
+	default:
+	}
+	return "", false
 }
 
 // chainSource is a pre-built chain the real-ledger runs draw blocks from.
@@ -729,4 +810,36 @@ func queuePart(t *testing.T, run *ev.Run) {
 	}
 	close(ch)
 	wg.Wait()
+	// invalid copies of the next block ahead of the genuine ones (sequential:
+	// the runs share the refusal counter)
+	confirmed := 0
+	for i := 0; i < ev.Pick(24, 400) && confirmed < 2; i++ {
+		id := fmt.Sprintf("queue/invalid-copy/%d", i)
+		if !run.Want(id) {
+			continue
+		}
+		r := rng.New(uint64(i) + 700000)
+		cache := []int{1, 2, 3, 4, 8, 16}[r.Intn(6)]
+		n := 20 + r.Intn(40)
+		var problem string
+		stalled := true
+		attempts := 0
+		for stalled && attempts < 3 {
+			attempts++
+			problem, stalled = invalidCopyRun(uint64(i)+700000+uint64(attempts)*100000, cache, n, i%4 == 3)
+		}
+		run.Case(fmt.Sprintf("invalid-copy/cache=%d/blocking=%v", cache, i%4 == 3), true)
+		run.Obs("queue_invalid_copy_runs", 1)
+		switch {
+		case stalled:
+			run.Violation("queue:invalid-copy-of-next-block-wedges-the-queue", id, "three attempts: "+problem, map[string]any{"cache": cache, "blocks": n, "attempts": attempts})
+			confirmed++
+		case problem != "":
+			run.Violation("queue:invalid-copy:"+strings.SplitN(problem, ":", 2)[0], id, problem, map[string]any{"cache": cache, "blocks": n})
+		case attempts > 1:
+			run.Inconclusive("%s: %d stalled attempt(s) before a clean one", id, attempts-1)
+		}
+	}
+	run.Obs("queue_invalid_copies_put", invalidCopiesPut.Swap(0))
+	run.Obs("queue_invalid_copies_refused_by_the_ledger", invalidCopiesRefused.Swap(0))
 }
